@@ -496,6 +496,23 @@ def check_c07_structure(ctx: Ctx) -> list[dict]:
     for v in rec.contract_violations:
         if v["contract"] in ("fresh_predicate", "fresh_variable", "single_purpose", "unused_protected"):
             out.append({"kind": "contract:" + v["contract"], **{k: v[k] for k in v if k != "contract"}})
+    # step-wise: a statement that a step adds may only define a predicate of the source vocabulary if the step also
+    # removed a statement defining it (a rewritten rule keeps its head).  An added rule for an untouched source predicate
+    # means an invented name collided with it (also when the name generator was asked for another arity).
+    if rec.trace_complete:
+        prev, prev_asts = rec.stages[0], rec.stage_asts[0]
+        for stage, asts in zip(rec.stages[1:], rec.stage_asts[1:]):
+            if stage["stmts"] != prev["stmts"]:
+                before, after = Counter(prev["stmts"]), Counter(stage["stmts"])
+                removed = [x for x in prev_asts if (before - after)[str(x)] > 0]
+                added = [x for x in asts if (after - before)[str(x)] > 0]
+                removed_heads = refast.head_predicates(removed)
+                ctx.counters["c07_steps_checked"] += 1
+                for stm in added:
+                    for hp in sorted(refast.head_predicates([stm]) - removed_heads):
+                        if hp in protected:
+                            out.append({"kind": "source-predicate-gains-rule", "pred": list(hp), "stmt": str(stm)[:300], "step": stage["name"], "iter": stage["iter"]})
+            prev, prev_asts = stage, asts
     return out
 
 
@@ -657,7 +674,8 @@ def _check_domain_event(ctx: Ctx, ev: dict, models: list, inst: list, stage: dic
         return out
     # chain atoms lie inside the domain: every chain predicate over this domain (named __chain_..__{min|max}_<dom>)
     # only carries values of the domain at its last position
-    chain_preds = [p for p in (models[0].keys() if models else []) if p[0].startswith("__chain_") and (p[0].endswith("__max_" + dom[0]) or p[0].endswith("__min_" + dom[0]))]
+    all_preds = set().union(*(m.keys() for m in models[:64])) if models else set()
+    chain_preds = sorted(p for p in all_preds if p[0].startswith("__chain_") and (p[0].endswith("__max_" + dom[0]) or p[0].endswith("__min_" + dom[0])))
     for m in models[:64]:
         for cp in chain_preds:
             dom_vals = {t[ev["position"]] for t in m.get(dom, set())}
